@@ -5,6 +5,7 @@ import (
 	"fmt"
 	"strings"
 	"sync"
+	"time"
 
 	"gitlab.com/aquachain/aquachain/aquadb"
 	"gitlab.com/aquachain/aquachain/common"
@@ -304,6 +305,7 @@ func (r *replica) readers(n int, stop chan struct{}) *sync.WaitGroup {
 					}
 				}
 				bc.GetTd(head.Hash(), num)
+				time.Sleep(50 * time.Microsecond) // keep the readers from starving the importer
 			}
 		}(i)
 	}
